@@ -251,8 +251,7 @@ func (o *Optimizer) buildFinalPlan(s Storage, fp Plan, stmt *SelectStmt) (FinalP
 			continue
 		}
 		switch field.ReturnType() {
-		case TSTR, TNUMBER, TBOOL:
-		default:
+		case TLIST, TJSON:
 			return nil, NewSyntaxError(field.GetPos(), "Field %s return wrong type", stmt.FieldNames[i])
 		}
 	}
